@@ -51,3 +51,27 @@ Definition new_contents (off : N) (rgs : list (list part)) : list bytes := map (
 (* directories come from partition values: the model of PART_ID needs them free of newlines *)
 Definition good_dir (d : path) : bool := negb (existsb (N.eqb 10) d).
 Definition good_dirs (rgs : list (list part)) : bool := forallb (forallb (fun pt => good_dir (fst pt))) rgs.
+
+(* ---- any sequence of multi-file appends: each step's references are the previous ones followed by its new files ---- *)
+Definition step_in := (bool * list (list part) * list bytes * list bytes)%type.
+
+Fixpoint run_appends (steps : list step_in) (refs : list path) (s : fs) : option (list path * fs) :=
+  match steps with
+  | [] => Some (refs, s)
+  | (pt, rgs, md, cmd) :: r =>
+    match find_max_part refs, append_trace refs pt rgs md cmd with
+    | Some off, Some tr => run_appends r (refs ++ new_paths off rgs) (run_trace tr s)
+    | _, _ => None
+    end
+  end.
+
+Fixpoint all_new_contents (steps : list step_in) (refs : list path) : list bytes :=
+  match steps with
+  | [] => []
+  | (pt, rgs, md, cmd) :: r =>
+    match find_max_part refs with
+    | Some off => new_contents off rgs ++ all_new_contents r (refs ++ new_paths off rgs)
+    | None => []
+    end
+  end.
+
